@@ -2,8 +2,9 @@ package verifadapt
 
 // Hostile wire / hostile disk helpers (C19).
 //
-//   Mutate      one tape-chosen corruption of a valid encoding (byte level and
-//               protobuf aware, recursively into nested messages / map entries)
+//   Mutate      (hostile_mutate.go) one tape-chosen corruption of a valid
+//               encoding (byte level and protobuf aware, recursively into
+//               nested messages / map entries), drawn as a MutationRecipe
 //   PBCanonical deterministic re-ordering of map entries (Go's protobuf
 //               marshaller emits map entries in random order; the basis of a
 //               mutation must not depend on it)
@@ -54,209 +55,12 @@ var hostileVarints = []struct {
 	{"2^63", 1 << 63},
 }
 
-// Mutate returns ONE tape-chosen corruption of valid and a stable name of
-// what was done. Decision value 0 is the benign choice ("none": the payload
-// is returned unchanged).
-func Mutate(tp *verifsim.Tape, valid []byte) (mutated []byte, kind string) {
-	cp := append([]byte(nil), valid...)
-	// weights: none, truncate, bitflip, overwrite, protobuf-aware, empty, garbage
-	switch tp.Weighted("mut-class", 1, 5, 4, 3, 24, 1, 2) {
-	case 0:
-		return cp, "none"
-	case 1:
-		if len(cp) == 0 {
-			return cp, "empty"
-		}
-		// torn write / cut packet: keep a strict prefix
-		return cp[:tp.Choose("mut-cut", len(cp))], "truncate"
-	case 2:
-		if len(cp) == 0 {
-			return cp, "empty"
-		}
-		i := tp.Choose("mut-flip-at", len(cp))
-		cp[i] ^= 1 << uint(tp.Choose("mut-flip-bit", 8))
-		return cp, "bitflip"
-	case 3:
-		if len(cp) == 0 {
-			return cp, "empty"
-		}
-		i := tp.Choose("mut-ow-at", len(cp))
-		n := 1 + tp.Choose("mut-ow-len", 16)
-		if i+n > len(cp) {
-			n = len(cp) - i
-		}
-		copy(cp[i:], tp.Bytes("mut-ow-bytes", n))
-		return cp, "overwrite"
-	case 4:
-		out, k := mutatePB(tp, cp, 0)
-		return out, k
-	case 5:
-		return []byte{}, "empty"
-	default:
-		n := 1 + tp.Choose("mut-garbage-len", 96)
-		return tp.Bytes("mut-garbage", n), "garbage"
-	}
-}
-
 func pbHasNested(f PBField) bool {
 	if f.Typ != protowire.BytesType || len(f.Data) == 0 {
 		return false
 	}
 	sub, ok := PBParse(f.Data)
 	return ok && len(sub) > 0
-}
-
-// mutatePB applies one protobuf-aware edit to msg (which should parse as a
-// protobuf message) or, by tape, descends into one nested message / map entry
-// and applies the edit there.
-func mutatePB(tp *verifsim.Tape, msg []byte, depth int) ([]byte, string) {
-	pre := ""
-	if depth > 0 {
-		pre = "nested-"
-	}
-	fs, ok := PBParse(msg)
-	if !ok || len(fs) == 0 {
-		// nothing to edit: add a field to the (empty / unparsable) message
-		return pbAddField(tp, msg), pre + "pb-add-field"
-	}
-	// candidates for descending
-	var nested []int
-	for i, f := range fs {
-		if pbHasNested(f) {
-			nested = append(nested, i)
-		}
-	}
-	if len(nested) > 0 && depth < 5 && tp.Chance("mut-descend", 2, 5) {
-		i := nested[tp.Choose("mut-descend-which", len(nested))]
-		sub, k := mutatePB(tp, fs[i].Data, depth+1)
-		fs[i].Data = sub
-		if !strings.HasPrefix(k, "nested-") {
-			k = "nested-" + k
-		}
-		return PBBuild(fs), k
-	}
-	var varints, delimited []int
-	for i, f := range fs {
-		switch f.Typ {
-		case protowire.VarintType:
-			varints = append(varints, i)
-		case protowire.BytesType:
-			delimited = append(delimited, i)
-		}
-	}
-	// edits: delete, empty, oversize, varint value, duplicate, add field,
-	// lie about a length, change a wire type, shuffle
-	switch tp.Weighted("mut-pb-edit", 5, 4, 2, 6, 3, 3, 2, 2, 1) {
-	case 0:
-		i := tp.Choose("mut-del", len(fs))
-		fs = append(fs[:i:i], fs[i+1:]...)
-		return PBBuild(fs), pre + "pb-delete-field"
-	case 1:
-		if len(delimited) == 0 {
-			return pbAddField(tp, msg), pre + "pb-add-field"
-		}
-		i := delimited[tp.Choose("mut-empty", len(delimited))]
-		fs[i].Data = nil
-		return PBBuild(fs), pre + "pb-empty-field"
-	case 2:
-		if len(delimited) == 0 {
-			return pbAddField(tp, msg), pre + "pb-add-field"
-		}
-		i := delimited[tp.Choose("mut-oversize", len(delimited))]
-		n := []int{300, 4096, 70000}[tp.Choose("mut-oversize-len", 3)]
-		if tp.Chance("mut-oversize-extend", 1, 2) {
-			// keep the genuine content as a prefix
-			fs[i].Data = append(append([]byte(nil), fs[i].Data...), tp.Bytes("mut-oversize-bytes", n)...)
-		} else {
-			fs[i].Data = tp.Bytes("mut-oversize-bytes", n)
-		}
-		return PBBuild(fs), pre + "pb-oversize-field"
-	case 3:
-		hv := hostileVarints[tp.Choose("mut-varint-value", len(hostileVarints))]
-		if len(varints) == 0 {
-			// proto3 omits zero-valued scalars: set one of the low field numbers
-			num := protowire.Number(1 + tp.Choose("mut-varint-num", 5))
-			fs = append([]PBField{{Num: num, Typ: protowire.VarintType, Val: hv.v}}, fs...)
-			return PBBuild(fs), pre + "pb-varint-" + hv.name
-		}
-		i := varints[tp.Choose("mut-varint", len(varints))]
-		fs[i].Val = hv.v
-		return PBBuild(fs), pre + "pb-varint-" + hv.name
-	case 4:
-		i := tp.Choose("mut-dup", len(fs))
-		j := tp.Choose("mut-dup-to", len(fs)+1)
-		d := fs[i]
-		out := append([]PBField(nil), fs[:j]...)
-		out = append(out, d)
-		out = append(out, fs[j:]...)
-		return PBBuild(out), pre + "pb-duplicate-field"
-	case 5:
-		return pbAddField(tp, msg), pre + "pb-add-field"
-	case 6:
-		if len(delimited) == 0 {
-			return pbAddField(tp, msg), pre + "pb-add-field"
-		}
-		// the length prefix of one field lies (content unchanged)
-		which := delimited[tp.Choose("mut-lie", len(delimited))]
-		var b []byte
-		for i, f := range fs {
-			if i != which {
-				b = append(b, PBBuild([]PBField{f})...)
-				continue
-			}
-			b = protowire.AppendTag(b, f.Num, f.Typ)
-			l := uint64(len(f.Data))
-			switch tp.Choose("mut-lie-how", 4) {
-			case 0:
-				l++
-			case 1:
-				if l > 0 {
-					l--
-				}
-			case 2:
-				l = 1<<31 - 1
-			default:
-				l = 1<<64 - 1
-			}
-			b = protowire.AppendVarint(b, l)
-			b = append(b, f.Data...)
-		}
-		return b, pre + "pb-length-lie"
-	case 7:
-		i := tp.Choose("mut-wiretype", len(fs))
-		switch fs[i].Typ {
-		case protowire.VarintType:
-			fs[i].Typ = protowire.BytesType
-			fs[i].Data = tp.Bytes("mut-wiretype-bytes", 1+tp.Choose("mut-wiretype-len", 40))
-		default:
-			fs[i].Typ = protowire.VarintType
-			fs[i].Val = tp.Uint64("mut-wiretype-val")
-		}
-		return PBBuild(fs), pre + "pb-change-wire-type"
-	default:
-		p := tp.Perm("mut-shuffle", len(fs))
-		out := make([]PBField, len(fs))
-		for i, j := range p {
-			out[i] = fs[j]
-		}
-		return PBBuild(out), pre + "pb-reorder-fields"
-	}
-}
-
-func pbAddField(tp *verifsim.Tape, msg []byte) []byte {
-	num := protowire.Number(1 + tp.Choose("mut-add-num", 8))
-	var f []byte
-	if tp.Chance("mut-add-bytes", 1, 2) {
-		f = protowire.AppendTag(f, num, protowire.BytesType)
-		f = protowire.AppendBytes(f, tp.Bytes("mut-add-data", tp.Choose("mut-add-len", 40)))
-	} else {
-		f = protowire.AppendTag(f, num, protowire.VarintType)
-		f = protowire.AppendVarint(f, hostileVarints[tp.Choose("mut-add-val", len(hostileVarints))].v)
-	}
-	if tp.Chance("mut-add-front", 1, 2) {
-		return append(f, msg...)
-	}
-	return append(append([]byte(nil), msg...), f...)
 }
 
 // PBCanonical sorts every run of consecutive equal-numbered length-delimited
@@ -641,11 +445,26 @@ func (h *Hostile) RoundTripPayload(sent net.TaggedMarshaler, payload []byte) {
 // of type typ). It logs the mutation kinds only.
 func (h *Hostile) Attack(typ string, valid []byte, n int) {
 	tp := h.R.T
-	basis := PBCanonical(valid)
+	rcs := make([]MutationRecipe, 0, n)
 	kinds := make([]string, 0, n)
-	for i := 0; i < n && !h.R.Failed(); i++ {
-		mut, kind := Mutate(tp, basis)
-		kinds = append(kinds, kind)
+	for i := 0; i < n; i++ {
+		rc := DrawRecipe(tp)
+		rcs = append(rcs, rc)
+		kinds = append(kinds, rc.Requested())
+	}
+	h.R.Logf("attack %s: %s", typ, strings.Join(kinds, ","))
+	h.AttackWith(typ, valid, rcs)
+}
+
+// AttackWith delivers the given (already drawn) corruptions of valid. It does
+// not touch the tape and does not log.
+func (h *Hostile) AttackWith(typ string, valid []byte, rcs []MutationRecipe) {
+	basis := PBCanonical(valid)
+	for _, rc := range rcs {
+		if h.R.Failed() {
+			break
+		}
+		mut, kind := rc.Apply(basis)
 		h.R.Fault("wire:" + kind)
 		h.R.Probe("type:" + typ)
 		msg, ok := h.deliver(typ, mut, "mutated ("+kind+")", kind == "none")
@@ -659,7 +478,6 @@ func (h *Hostile) Attack(typ string, valid []byte, n int) {
 		h.R.Probe("accepted:" + typ)
 		h.checkAccepted(typ, msg, kind)
 	}
-	h.R.Logf("attack %s: %s", typ, strings.Join(kinds, ","))
 }
 
 // checkAccepted: a value the decoder produced is a value of the type, so the
@@ -707,7 +525,7 @@ func (h *Hostile) checkAccepted(typ string, msg *Message, kind string) {
 // intact file.
 func CorruptFile(tp *verifsim.Tape, valid []byte) ([]byte, string) {
 	cp := append([]byte(nil), valid...)
-	switch tp.Weighted("disk-corruption", 1, 6, 2, 2, 8) {
+	switch tp.Weighted("disk-corruption", 3, 6, 2, 2, 8) {
 	case 0:
 		return cp, "intact"
 	case 1:
@@ -727,11 +545,13 @@ func CorruptFile(tp *verifsim.Tape, valid []byte) ([]byte, string) {
 		}
 		return cp, "bit-flips"
 	default:
-		out, k := Mutate(tp, PBCanonical(cp))
-		if k == "none" {
+		// the name is the tape-determined one (independent of file content)
+		rc := DrawRecipe(tp)
+		out, _ := rc.Apply(PBCanonical(cp))
+		if rc.Requested() == "none" {
 			return out, "intact"
 		}
-		return out, "mutate:" + k
+		return out, "mutate:" + rc.Requested()
 	}
 }
 
@@ -744,6 +564,29 @@ func GuardedCall(fn func()) (panicked bool, val interface{}, stack string) {
 	}()
 	fn()
 	return
+}
+
+// PanicSite names the innermost keep-core function (not harness, not adapter)
+// on a stack returned by GuardedCall, e.g. "tbtc.(*signer).Unmarshal"; it
+// makes panic classes site-specific. "unknown" if there is none.
+func PanicSite(stack string) string {
+	for _, l := range strings.Split(stack, "\n") {
+		if !strings.Contains(l, "keep-network/keep-co") || strings.HasPrefix(l, "/") {
+			continue
+		}
+		if strings.Contains(l, "verifadapt") || strings.Contains(l, ".c19") || strings.Contains(l, "zz_verif") {
+			continue
+		}
+		fn := l
+		if j := strings.LastIndex(fn, "("); j > 0 {
+			fn = fn[:j]
+		}
+		if j := strings.LastIndex(fn, "/"); j >= 0 {
+			fn = fn[j+1:]
+		}
+		return fn
+	}
+	return "unknown"
 }
 
 // BytesEqual is bytes.Equal (saves an import in small harness files).
